@@ -153,6 +153,8 @@ def run(ck, ix, tier):
     src = norm(f.node)
     ck.check("ratios = (dim2[key] / val for key, val in dim1.items())" in src and "dim1.keys() != dim2.keys()" in src and "all((r == first for r in ratios))" in src, "G-PROV", "_get_dimensionality_ratio|common-ratio", f.loc(),
              "ratio dim2/dim1 common to all dimensions, None when the dimension sets differ", "_get_dimensionality_ratio no longer computes the common exponent ratio dim2/dim1")
+    from .C16 import inplace_primitives_rule
+    inplace_primitives_rule(ck, ix)  # only in-place forms may rescale/rebind their target
     return EXPLANATION
 
 
